@@ -364,7 +364,10 @@ func (d doubleQuotes) String() string {
 
 // Loosely based on Pratt parser explained in this article: https://matklad.github.io/2020/04/13/simple-but-powerful-pratt-parsing.html
 func (p *Parser) term(maxPriority Integer) (Term, error) {
-	var lhs Term
+	var (
+		lhs         Term
+		lhsPriority Integer // the priority of lhs as a term: that of its principal operator, 0 for anything else
+	)
 	switch op, err := p.prefix(maxPriority); err {
 	case nil:
 		_, rbp := op.bindingPriorities()
@@ -373,7 +376,7 @@ func (p *Parser) term(maxPriority Integer) (Term, error) {
 			p.backup()
 			return p.term0(maxPriority)
 		}
-		lhs = op.name.Apply(t)
+		lhs, lhsPriority = op.name.Apply(t), op.priority
 	case errNoOp:
 		lhs, err = p.term0(maxPriority)
 		if err != nil {
@@ -384,7 +387,7 @@ func (p *Parser) term(maxPriority Integer) (Term, error) {
 	}
 
 	for {
-		op, err := p.infix(maxPriority)
+		op, err := p.infix(maxPriority, lhsPriority)
 		if err != nil {
 			break
 		}
@@ -398,6 +401,7 @@ func (p *Parser) term(maxPriority Integer) (Term, error) {
 			}
 			lhs = op.name.Apply(lhs, rhs)
 		}
+		lhsPriority = op.priority
 	}
 
 	return lhs, nil
@@ -445,7 +449,9 @@ func (p *Parser) prefix(maxPriority Integer) (operator, error) {
 	return operator{}, errNoOp
 }
 
-func (p *Parser) infix(maxPriority Integer) (operator, error) {
+// infix reads an infix or postfix operator that may follow a left operand of the priority lhsPriority in a term of at most
+// maxPriority: the term it makes has the operator's priority, and its left operand at most the operator's left priority.
+func (p *Parser) infix(maxPriority, lhsPriority Integer) (operator, error) {
 	a, err := p.op(maxPriority)
 	if err != nil {
 		return operator{}, errNoOp
@@ -453,13 +459,13 @@ func (p *Parser) infix(maxPriority Integer) (operator, error) {
 
 	if op := p.operators[a][operatorClassInfix]; op != (operator{}) {
 		l, _ := op.bindingPriorities()
-		if l <= maxPriority {
+		if op.priority <= maxPriority && lhsPriority <= l {
 			return op, nil
 		}
 	}
 	if op := p.operators[a][operatorClassPostfix]; op != (operator{}) {
 		l, _ := op.bindingPriorities()
-		if l <= maxPriority {
+		if op.priority <= maxPriority && lhsPriority <= l {
 			return op, nil
 		}
 	}
